@@ -1136,6 +1136,11 @@ class ReactionItem(Reaction):
     @X.setter
     def X(self, X):
         self._X[self._index] = X
+    
+    @property
+    def dH(self):
+        """Heat of reaction at given conversion; see :attr:`Reaction.dH`."""
+        return self.copy().dH
         
 
 @chemicals_user
